@@ -134,6 +134,8 @@ struct Sess<'a> {
     cap: [u16; 8],
     /// sequence number of a READ sent while an unsolicited response was outstanding (it is deferred)
     deferred_read_seq: Option<u8>,
+    /// the request sent last asks for static data (an integrity READ)
+    static_wanted: bool,
     /// sequence number of a DISABLE_UNSOLICITED request whose reply has not been seen yet
     disable_seq: Option<u8>,
     /// confirm modes of broadcasts sent but not yet seen processed (OutstationInformation::broadcast_received)
@@ -488,6 +490,14 @@ impl<'a> Sess<'a> {
                 continue;
             }
             if !ra::is_event_group(h.g) {
+                // static data in a solicited response although the request being answered (the READ sent last, which
+                // supersedes every earlier one) asked for none: left-overs of a superseded or abandoned READ
+                if !unsol && !self.static_wanted && matches!(h.g, 1 | 3 | 10 | 20 | 21 | 30 | 40 | 110) && !h.objects.is_empty() {
+                    self.fail14(
+                        "U7-response-carries-objects-nobody-asked-for",
+                        format!("fragment #{no} (solicited) carries {} objects of g{}v{} although the request it answers asks for no static data", h.objects.len(), h.g, h.v),
+                    );
+                }
                 continue;
             }
             for o in &h.objects {
@@ -1101,6 +1111,7 @@ impl<'a> Sess<'a> {
         if function != func::READ {
             self.deferred_read_seq = None;
         }
+        self.static_wanted = false;
         if let Some(o) = self.out_sol.take() {
             self.unconfirmed_carrier_seen |= !self.frags[o.frag].ids.is_empty();
             label(&mut self.f, "sol_series_aborted_by_request");
@@ -1164,6 +1175,7 @@ impl<'a> Sess<'a> {
             Op::Read(kind) => {
                 let f = self.read_request(kind);
                 self.note_request_sent(func::READ);
+                self.static_wanted = matches!(kind, ReadKind::Integrity(_));
                 self.deferred_read_seq = if self.out_unsol.is_some() {
                     Some(f.seq)
                 } else {
@@ -1452,6 +1464,7 @@ pub async fn run_history(case: &Case, c13_ops: bool) -> Findings {
         unsol_series_failed: false,
         cap: case.event_buffer,
         deferred_read_seq: None,
+        static_wanted: false,
         disable_seq: None,
         sent_broadcasts: Default::default(),
         startup_done: false,
